@@ -1,6 +1,6 @@
 (* History2_Proofs.v - the lockstep theorem of History_Proofs.v for EVERY configuration: passive and active modes, RFC 2428
    on and off, plain and TLS sessions. *)
-From LibFtp Require Import Bytes Decimal Reply Endpoint Ascii DataConn DataConn_Proofs Client Client_Proofs Login_Proofs Transfer_Proofs Transfer_More Modes_Proofs Ctl_Proofs History_Proofs.
+From LibFtp Require Import Bytes Decimal Reply Endpoint Ascii DataConn DataConn_Proofs Client Client_Proofs Login_Proofs Transfer_Proofs Transfer_More Transfer_Cb Modes_Proofs Ctl_Proofs History_Proofs.
 Local Open Scope N_scope.
 
 (* what is fixed along a history: transfer mode, RFC 2428 flag, TLS configured or not, the command that advertises the
@@ -60,6 +60,34 @@ Inductive servesK (k : kit) (t : ttype) : api -> list reaction -> list reply -> 
     k_mode k = Active -> k_adv k = Some line -> arg_ok path -> simple_reaction r1 x1 -> is_negative x1 = false ->
     accepts_transfer r2 x2 x3 -> dp_reachable (r_data r2) = true -> dp_end (r_data r2) = DEof -> data_ok (k_tls k) r2 ->
     servesK k t (AList path names) [r1; r2] [x1; x2; x3]
+(* transfers with a callback, passive modes without TLS: completed, and cancelled while in progress (ABOR answered by
+   426 and then the reply to ABOR, the order RFC 959 prescribes) *)
+| sk_download_cb_p path answers answers' answers'' ev r1 r2 x1 x2 x3 ip port :
+    k_mode k = Passive -> k_tls k = false -> has_crlf path = false -> simple_reaction r1 x1 -> is_negative x1 = false ->
+    ptarget (k_rfc k) x1 ip port -> dp_reachable (r_data r1) = true -> accepts_transfer r2 x2 x3 ->
+    data_recv t (mkSink None O) (dp_segs (r_data r2)) (dp_end (r_data r2)) (Some answers) = (ev, PDone, Some answers') ->
+    poll answers' = (false, answers'') ->
+    servesK k t (ADownload path (Some answers) None) [r1; r2] [x1; x2; x3]
+| sk_upload_cb_p u path chunks answers answers' answers'' ev r1 r2 x1 x2 x3 ip port :
+    k_mode k = Passive -> k_tls k = false -> has_crlf path = false -> simple_reaction r1 x1 -> is_negative x1 = false ->
+    ptarget (k_rfc k) x1 ip port -> dp_reachable (r_data r1) = true -> accepts_transfer r2 x2 x3 ->
+    data_send t block_size chunks (Some answers) = (ev, PDone, Some answers') ->
+    poll answers' = (false, answers'') ->
+    servesK k t (AUpload u path chunks (Some answers)) [r1; r2] [x1; x2; x3]
+| sk_download_cancelled_p path answers answers' answers'' ev pr r1 r2 r3 x1 x2 x4 x5 ip port :
+    k_mode k = Passive -> k_tls k = false -> has_crlf path = false -> simple_reaction r1 x1 -> is_negative x1 = false ->
+    ptarget (k_rfc k) x1 ip port -> dp_reachable (r_data r1) = true -> simple_reaction r2 x2 -> is_negative x2 = false ->
+    data_recv t (mkSink None O) (dp_segs (r_data r2)) (dp_end (r_data r2)) (Some answers) = (ev, pr, Some answers') ->
+    pr <> PThrow -> poll answers' = (true, answers'') ->
+    r_now r3 = [RReply x4; RReply x5] -> r_on_close r3 = [] -> r_close_after r3 = false -> code x4 = 426 -> code x5 <> 421 ->
+    servesK k t (ADownload path (Some answers) None) [r1; r2; r3] [x1; x2; x4; x5]
+| sk_upload_cancelled_p u path chunks answers answers' answers'' ev pr r1 r2 r3 x1 x2 x4 x5 ip port :
+    k_mode k = Passive -> k_tls k = false -> has_crlf path = false -> simple_reaction r1 x1 -> is_negative x1 = false ->
+    ptarget (k_rfc k) x1 ip port -> dp_reachable (r_data r1) = true -> simple_reaction r2 x2 -> is_negative x2 = false ->
+    data_send t block_size chunks (Some answers) = (ev, pr, Some answers') ->
+    pr <> PThrow -> poll answers' = (true, answers'') ->
+    r_now r3 = [RReply x4; RReply x5] -> r_on_close r3 = [] -> r_close_after r3 = false -> code x4 = 426 -> code x5 <> 421 ->
+    servesK k t (AUpload u path chunks (Some answers)) [r1; r2; r3] [x1; x2; x4; x5]
 (* refusals *)
 | sk_download_refused_at_setup_p path cb f r1 x1 :
     k_mode k = Passive -> has_crlf path = false -> simple_reaction r1 x1 -> is_negative x1 = true ->
@@ -178,6 +206,14 @@ Proof.
       apply (Fin _ w' E eq_refl Is I). rewrite Cf. reflexivity.
     + destruct (list_active_complete w path names r1 r2 rest x1 x2 x3 line Hi Hd H Tl H1 H0 H2 H3 H4 H5 H6) as (w' & E & Is & _ & Cf & _).
       apply (Fin _ w' E eq_refl Is I). rewrite Cf. reflexivity.
+  - destruct (download_callback_passive_complete w path answers answers' answers'' ev r1 r2 rest x1 x2 x3 ip port Hi Hd H H0 H1 H2 H3 H4 H5 H6 H7 H8) as (w' & E & Is & _ & Cf & _).
+    apply (Fin _ w' E eq_refl Is I). rewrite Cf. reflexivity.
+  - destruct (upload_callback_passive_complete w u path chunks answers answers' answers'' ev r1 r2 rest x1 x2 x3 ip port Hi Hd H H0 H1 H2 H3 H4 H5 H6 H7 H8) as (w' & E & Is & _ & Cf & _).
+    apply (Fin _ w' E eq_refl Is I). rewrite Cf. reflexivity.
+  - destruct (download_cancelled_passive w path answers answers' answers'' ev r1 r2 r3 rest x1 x2 x4 x5 ip port pr Hi Hd H H0 H1 H2 H3 H4 H5 H6 H7 H8 H9 H10 H11 H12 H13 H14 H15) as (w' & E & Is & _ & Cf & _).
+    apply (Fin _ w' E eq_refl Is I). rewrite Cf. reflexivity.
+  - destruct (upload_cancelled_passive w u path chunks answers answers' answers'' ev r1 r2 r3 rest x1 x2 x4 x5 ip port pr Hi Hd H H0 H1 H2 H3 H4 H5 H6 H7 H8 H9 H10 H11 H12 H13 H14 H15) as (w' & E & Is & _ & Cf & _).
+    apply (Fin _ w' E eq_refl Is I). rewrite Cf. reflexivity.
   - destruct (refused_at_passive_setup w RETR_ path (mkIo cb (mkSink f O) []) r1 rest x1 Hr Hp Hd Hc H1 H H2 H0) as (w' & E & A & B & C & _ & Cf & _).
     change (run _ (set_io w (mkIo cb (mkSink f O) []))) with (step w (ADownload path cb f)) in E.
     apply (Fin _ w' E eq_refl); [exact (conj A (conj B C))|exact I|rewrite Cf; reflexivity].
@@ -231,3 +267,24 @@ Theorem lockstep_all_configurations : forall cs rss xss w rest,
   InvK w (rss ++ rest) -> historyK (kit_of w) (c_type (w_cfg w)) cs rss xss ->
   map outcome_replies (fst (steps w cs)) = map Some xss /\ InvK (snd (steps w cs)) rest.
 Proof. intros cs rss xss w rest Hi Hh. exact (lockstep_all_aux _ _ cs rss xss Hh w rest eq_refl eq_refl Hi). Qed.
+
+(* non-vacuity of the callback constructors: a download with a callback that never cancels, then an upload cancelled
+   at the poll that follows the last block (ABOR answered by 426 and 226) *)
+Definition exk_calls : list api :=
+  [ADownload [102] (Some [false; false; false]) None; AUpload UStor [103] [[9]; [8]] (Some [false; false; false; true])].
+Definition exk_script : list reaction :=
+  [ex_epsv; mkR [RReply (mkReply 150 [])] [RReply (mkReply 226 [])] false false true (mkDP true true [[1]; [2]] DEof true)] ++
+  [ex_epsv; ex_r 150 []; mkR [RReply (mkReply 426 []); RReply (mkReply 226 [65])] [] false false true no_plan] ++ [].
+Example ex_historyK : historyK (mkKit Passive true false None) TBinary exk_calls exk_script
+  [[mkReply 229 [40;124;124;124;53;124;41]; mkReply 150 []; mkReply 226 []];
+   [mkReply 229 [40;124;124;124;53;124;41]; mkReply 150 []; mkReply 426 []; mkReply 226 [65]]].
+Proof.
+  unfold exk_calls, exk_script.
+  apply hk_cons.
+  { eapply (sk_download_cb_p _ _ [102] _ [] [] _ ex_epsv _ _ _ _ None 5); try reflexivity;
+      repeat split; try reflexivity; discriminate. }
+  apply hk_cons.
+  { eapply (sk_upload_cancelled_p _ _ UStor [103] _ _ [true] [] _ PDone ex_epsv (ex_r 150 []) _ _ _ _ _ None 5); try reflexivity;
+      repeat split; try reflexivity; discriminate. }
+  apply hk_nil.
+Qed.
